@@ -213,7 +213,7 @@ func VerifC19Trigger() {
 				if kind == vString && len(w.pStr[i]) != len(cur[s].str) {
 					_ = old
 				}
-			case 2:
+			case 2, 5:
 				continue // column b is not watched
 			case 3:
 				cur[s] = vCell{}
